@@ -714,15 +714,18 @@ def decorate_with_checker(func: CallableT) -> CallableT:
                 in_progress = set()
                 _IN_PROGRESS.set(in_progress)
 
+            # If the wrapper is already checking the contracts for the wrapped function, avoid a recursive loop
+            # by skipping any subsequent contract checks for the same function.
+            #
+            # This test must precede the try-finally block: the marker belongs to the outer invocation
+            # which is checking the contracts and must not be removed by a re-entrant call.
+            if id_func in in_progress:
+                return await func(*args, **kwargs)
+
+            in_progress.add(id_func)
+
             # Use try-finally instead of ExitStack for performance.
             try:
-                # If the wrapper is already checking the contracts for the wrapped function, avoid a recursive loop
-                # by skipping any subsequent contract checks for the same function.
-                if id_func in in_progress:
-                    return await func(*args, **kwargs)
-
-                in_progress.add(id_func)
-
                 (preconditions, snapshots, postconditions) = _unpack_pre_snap_posts(
                     wrapper
                 )
@@ -787,15 +790,18 @@ def decorate_with_checker(func: CallableT) -> CallableT:
                 in_progress = set()
                 _IN_PROGRESS.set(in_progress)
 
+            # If the wrapper is already checking the contracts for the wrapped function, avoid a recursive loop
+            # by skipping any subsequent contract checks for the same function.
+            #
+            # This test must precede the try-finally block: the marker belongs to the outer invocation
+            # which is checking the contracts and must not be removed by a re-entrant call.
+            if id_func in in_progress:
+                return func(*args, **kwargs)
+
+            in_progress.add(id_func)
+
             # Use try-finally instead of ExitStack for performance.
             try:
-                # If the wrapper is already checking the contracts for the wrapped function, avoid a recursive loop
-                # by skipping any subsequent contract checks for the same function.
-                if id_func in in_progress:
-                    return func(*args, **kwargs)
-
-                in_progress.add(id_func)
-
                 (preconditions, snapshots, postconditions) = _unpack_pre_snap_posts(
                     wrapper
                 )
